@@ -28,6 +28,10 @@ type scen struct {
 	Masks   []api.EventMask // one fake per entry (0 = everything)
 	Threads [][]op
 	Collide string // "", "within", "across", "update"
+	// Deep: thorough tier only; DeepBound: its preemption bound (the small scenarios complete bound 8 in seconds,
+	// the deep ones are an order of magnitude larger per preemption)
+	Deep      bool
+	DeepBound int
 }
 
 func mk(e ...api.Event) api.EventMask {
@@ -49,6 +53,10 @@ var scens = []scen{
 		Threads: [][]op{{{"event:UpdatePodSandbox", "c1"}, {"event:RunPodSandbox", "c1"}}, {{"event:StopPodSandbox", "c2"}}}},
 	{Name: "c06-three-by-two", Props: []string{"C06"}, Masks: []api.EventMask{0, mk(api.Event_CREATE_CONTAINER, api.Event_STOP_CONTAINER), 0},
 		Threads: [][]op{{{"create", "c1"}, {"event:PostCreateContainer", "c1"}}, {{"create", "c2"}, {"stop", "c2"}}, {{"event:UpdatePodSandbox", "c3"}, {"update", "c3"}}}},
+	{Name: "c06-four-callers", Props: []string{"C06"}, Masks: []api.EventMask{0, mk(api.Event_CREATE_CONTAINER, api.Event_UPDATE_CONTAINER), 0}, Deep: true, DeepBound: 5,
+		Threads: [][]op{{{"create", "c1"}}, {{"update", "c2"}}, {{"stop", "c3"}}, {{"event:StartContainer", "c4"}}}},
+	{Name: "c06-three-by-three", Props: []string{"C06"}, Masks: []api.EventMask{0, 0, mk(api.Event_STOP_CONTAINER, api.Event_START_CONTAINER)}, Deep: true, DeepBound: 4,
+		Threads: [][]op{{{"create", "c1"}, {"event:StartContainer", "c1"}, {"stop", "c1"}}, {{"create", "c2"}, {"update", "c2"}, {"stop", "c2"}}, {{"event:RunPodSandbox", "c3"}, {"event:StartContainer", "c3"}, {"event:StopPodSandbox", "c3"}}}},
 	{Name: "c01-collide-within", Props: []string{"C01"}, Masks: []api.EventMask{0, 0}, Collide: "within",
 		Threads: [][]op{{{"create", "c1"}}, {{"create", "c2"}}}},
 	{Name: "c01-collide-across", Props: []string{"C01", "C06"}, Masks: []api.EventMask{0, 0}, Collide: "across",
@@ -61,6 +69,8 @@ var scens = []scen{
 		Threads: [][]op{{{"unsol:0", "u1"}, {"unsol:0", "u3"}}, {{"event:StartContainer", "c1"}}, {{"update", "c2"}}}},
 	{Name: "c19-three-unsolicited", Props: []string{"C19"}, Masks: []api.EventMask{0, 0, 0},
 		Threads: [][]op{{{"unsol:0", "u1"}}, {{"unsol:1", "u2"}}, {{"unsol:2", "u3"}}}},
+	{Name: "c19-two-by-two-unsolicited-vs-two-requesters", Props: []string{"C19"}, Masks: []api.EventMask{0, 0}, Deep: true, DeepBound: 3,
+		Threads: [][]op{{{"unsol:0", "u1"}, {"unsol:0", "u2"}}, {{"unsol:1", "u3"}, {"unsol:1", "u4"}}, {{"create", "c1"}, {"stop", "c1"}}, {{"event:StartContainer", "c2"}, {"update", "c2"}}}},
 }
 
 type callRec struct {
@@ -500,10 +510,15 @@ func engineSched(f *rep.Flags, res *rep.Result) {
 	}
 	for i := range scens {
 		sc := &scens[i]
-		if !serves(sc, f.Prop) {
+		if !serves(sc, f.Prop) || (sc.Deep && !f.Thorough()) {
 			continue
 		}
 		names = append(names, sc.Name)
+		bound := bound
+		if sc.Deep {
+			bound = sc.DeepBound
+			res.Bounds["preemption_bound_"+sc.Name] = bound
+		}
 		ex := &vsched.Explorer{Sc: sc.scenario(), Bound: bound, Shard: f.Shard, NShards: f.NShards, Deadline: deadline}
 		if err := ex.Run(); err != nil {
 			rep.Fatal(f, "%v", err)
